@@ -465,4 +465,6 @@ def run(ctx: Ctx, tier: str) -> Result:
     from .common import borrow
     borrow(ctx, res, tier, "c07", ("C07.OPTIONAL",), "C06.LIMIT", "a value that could not be recorded (budget exhausted) yields `not recorded`, never an error that takes the snapshot with it")
     borrow(ctx, res, tier, "c20", ("C20.ISO",), "C06.ISOLATE", "the results of the tracepoints sharing an event are processed each in its own guard")
+    borrow(ctx, res, tier, "c15", ("C15.RESULT",), "C06.COMPLETE", "a deferred snapshot is handed to delivery once it is complete: the captured result and its variables are in "
+           "it before the (concurrent) sender sees it")
     return res
